@@ -183,3 +183,50 @@ func TestSendPath(t *testing.T) {
 		}
 	}
 }
+
+// TestDuplex runs duplex scenarios (two real sessions talking to each other) and writes both sides' traces.
+func TestDuplex(t *testing.T) {
+	scn, out := os.Getenv("VERIF_SCN"), os.Getenv("VERIF_TRACE")
+	if scn == "" || out == "" {
+		t.Skip("VERIF_SCN / VERIF_TRACE not set")
+	}
+	shard, of := shardOf()
+	in, err := os.Open(scn)
+	if err != nil {
+		t.Fatal(err)
+	}
+	defer in.Close()
+	f, err := os.Create(out)
+	if err != nil {
+		t.Fatal(err)
+	}
+	defer f.Close()
+	w := bufio.NewWriterSize(f, 1<<20)
+	defer w.Flush()
+	enc := json.NewEncoder(w)
+	sc := bufio.NewScanner(in)
+	sc.Buffer(make([]byte, 1<<20), 1<<26)
+	n := 0
+	for sc.Scan() {
+		if len(sc.Bytes()) == 0 {
+			continue
+		}
+		n++
+		if (n-1)%of != shard {
+			continue
+		}
+		var s DuplexScenario
+		if err := json.Unmarshal(sc.Bytes(), &s); err != nil {
+			t.Fatalf("DRIVER-ERROR bad scenario line %d: %v", n, err)
+		}
+		recs, failure := RunDuplex(t, &s)
+		if failure != "" {
+			t.Fatalf("DRIVER-ERROR scenario %s: %s", s.ID, failure)
+		}
+		for _, r := range recs {
+			if err := enc.Encode(r); err != nil {
+				t.Fatal(err)
+			}
+		}
+	}
+}
